@@ -91,6 +91,7 @@ def parseOp (f : List String) : Option Op :=
     some (.recv (idx! c) (kvN f "seq") (kvN f "ph")
       { dref := drefOf (kv f "den"), amount := kvI f "amt", target := actorOf (kv f "to"), memo := memoOf (kv f "memo") })
   | "send" :: a :: c :: _ => some (.send (addrOf a) (idx! c) (idx! (kv f "den")) (kvI f "amt"))
+  | "sendblk" :: a :: c :: _ => some (.sendBlk (addrOf a) (idx! c) (idx! (kv f "den")) (kvI f "amt"))
   | "ack" :: c :: _ => some (.ack (idx! c) (kvN f "seq") (kvN f "ph") (kv f "res" = "err"))
   | "timeout" :: c :: _ => some (.timeout (idx! c) (kvN f "seq") (kvN f "ph"))
   | "fin" :: a :: r :: _ =>
@@ -115,6 +116,7 @@ def parseOp (f : List String) : Option Op :=
   | "fork" :: r :: _ => some (.fork (ridOf r) (kvN f "h"))
   | ["chanclose", c] => some (.chanClose (idx! c))
   | ["chanopen", c] => some (.chanOpen (idx! c))
+  | "timeoutclose" :: c :: _ => some (.timeoutOnClose (idx! c) (kvN f "seq"))
   | ["epoch"] => some .epoch
   | ["block"] => some .block
   | _ => none
@@ -249,6 +251,8 @@ def dstep (d : DState) (f : List String) : DState × String :=
       -- a failed MsgTransfer is one class (ibc-go's own checks are not modelled one by one)
       let res := match op, r.2 with
         | .send .., .err _ => "err"
+        | .sendBlk .., .err _ => "err"
+        | .timeoutOnClose c q, .ok => if d.st.commits.contains (c, q) then "ok" else "replay"
         | _, o => outName o
       ({ d with st := r.1 }, render r.1 d.nActors res)
 
